@@ -23,8 +23,9 @@
 (* are tuples.                                                              *)
 (*                                                                          *)
 (* Classes (field cls of an action) keep apart inputs that fail for         *)
-(* different reasons; at most one action of a non-plain class is put into   *)
-(* an interface.                                                            *)
+(* different reasons; at most one action of a special class is put into an  *)
+(* interface ("plain" and, in pool C, "object" - actions that exchange      *)
+(* objects of interfaces of the package - combine freely).                  *)
 (***************************************************************************)
 EXTENDS SignatureOps
 
@@ -33,6 +34,32 @@ CONSTANTS Pool,         \* name of the action pool (Pools)
 
 Void == Sc("v")
 Prm(n, t) == [n |-> n, t |-> t]
+
+(***************************************************************************)
+(* Objects of an interface of the package (meta/idl InterfaceType): a type  *)
+(* tree leaf Obj(name).  On the wire and in the meta-object it is the       *)
+(* generic object reference "o" (Erase); in the IDL text it is the name of  *)
+(* the interface (IdlNameO).  Only pool C uses it; on trees without Obj     *)
+(* leaves Erase is the identity and IdlNameO is SignatureOps!IdlName.       *)
+(***************************************************************************)
+Obj(n) == [k |-> "obj", name |-> n]
+
+RECURSIVE Erase(_)
+Erase(T) ==
+  CASE T.k = "obj"    -> Sc("o")
+    [] T.k = "sc"     -> T
+    [] T.k = "list"   -> List(Erase(T.e))
+    [] T.k = "map"    -> Map(Erase(T.key), Erase(T.val))
+    [] T.k = "tuple"  -> Tuple([i \in DOMAIN T.ms |-> Erase(T.ms[i])])
+    [] T.k = "struct" -> Struct(T.name, [i \in DOMAIN T.ms |-> Erase(T.ms[i])], T.fs)
+
+RECURSIVE IdlNameO(_)
+IdlNameO(T) ==
+  CASE T.k = "obj"    -> T.name
+    [] T.k = "list"   -> "Vec<" \o IdlNameO(T.e) \o ">"
+    [] T.k = "map"    -> "Map<" \o IdlNameO(T.key) \o "," \o IdlNameO(T.val) \o ">"
+    [] T.k = "tuple"  -> "Tuple<" \o JoinComma([i \in DOMAIN T.ms |-> IdlNameO(T.ms[i])]) \o ">"
+    [] OTHER          -> IdlName(T)        \* scalars; structures print their name
 
 Method(id, name, ps, ret, cls) ==
   [kind |-> "method", id |-> id, name |-> name, ps |-> ps, ret |-> ret, bare |-> FALSE, cls |-> cls]
@@ -49,8 +76,8 @@ PayloadType(a) == IF a.bare THEN a.ps[1].t ELSE Tuple(ParamTypes(a))
 (* the meta-object entry: object.MetaMethod / MetaSignal / MetaProperty *)
 MetaOf(a) ==
   [kind |-> a.kind, uid |-> a.id, name |-> a.name, cls |-> a.cls,
-   sig |-> Str(Sig(PayloadType(a))),                      \* ParametersSignature / Signature
-   ret |-> IF a.kind = "method" THEN Str(Sig(a.ret)) ELSE "",
+   sig |-> Str(Sig(Erase(PayloadType(a)))),                      \* ParametersSignature / Signature
+   ret |-> IF a.kind = "method" THEN Str(Sig(Erase(a.ret))) ELSE "",
    pnames |-> IF a.kind = "method" THEN ParamNames(a) ELSE <<>>]
 
 (***************************************************************************)
@@ -59,6 +86,7 @@ MetaOf(a) ==
 RECURSIVE Structs(_)
 Structs(T) ==
   CASE T.k = "sc"     -> {}
+    [] T.k = "obj"    -> {}
     [] T.k = "list"   -> Structs(T.e)
     [] T.k = "map"    -> Structs(T.key) \cup Structs(T.val)
     [] T.k = "tuple"  -> UNION {Structs(T.ms[i]) : i \in DOMAIN T.ms}
@@ -168,6 +196,14 @@ N_Case == <<"C","a","s","e","d">>
 F_val == <<"v","a","l">>
 F_Val == <<"V","a","l">>
 CasedT == Struct(N_Case, <<I_, S_>>, <<F_val, F_Val>>)
+\* the interfaces of the package besides the assembled one (IdlRpc declares them): Probe, and Relay,
+\* which itself takes and returns Probes; SelfO: objects of the assembled interface
+ProbeO == Obj("Probe")
+RelayO == Obj("Relay")
+SelfO == Obj("Itf")
+N_Holder == <<"H","o","l","d","e","r">>
+F_probe == <<"p","r","o","b","e">>
+HolderT == Struct(N_Holder, <<S_, ProbeO>>, <<F_name, F_probe>>)
 PoolC ==
   << Method(100, "ping", <<>>, Void, "plain"),
      Method(101, "add", <<Prm("a", I_), Prm("b", Sc("l"))>>, Sc("L"), "plain"),
@@ -208,7 +244,40 @@ PoolC ==
      Method(133, "caseFields", <<Prm("s", CasedT)>>, Void, "struct-fields-differ-by-case"),
      Method(134, "empty", <<Prm("e", EmptyT)>>, EmptyT, "empty-struct"),
      Signal(135, "locsig", <<Prm("p", I_), Prm("buf", S_)>>, FALSE, "signal-param-generator-local"),
-     Property(136, "locprop", <<Prm("c", I_)>>, FALSE, "property-param-generator-local") >>
+     Property(136, "locprop", <<Prm("c", I_)>>, FALSE, "property-param-generator-local"),
+     \* objects of other interfaces of the package (Probe, Relay) and of the interface itself: taken,
+     \* returned, emitted; alone, between plain parameters, in containers; the generic reference
+     Method(140, "dock", <<Prm("probe", ProbeO)>>, I_, "object"),
+     Method(141, "launch", <<Prm("num", I_)>>, ProbeO, "object"),
+     Method(142, "swap", <<Prm("num", I_), Prm("probe", ProbeO), Prm("text", S_)>>, ProbeO, "object"),
+     Method(143, "escort", <<Prm("first", ProbeO), Prm("second", ProbeO)>>, RelayO, "object"),
+     Method(144, "handover", <<Prm("relay", RelayO), Prm("probe", ProbeO)>>, Void, "object"),
+     Method(145, "adopt", <<Prm("other", SelfO)>>, Void, "object"),
+     Method(146, "sibling", <<Prm("num", I_)>>, SelfO, "object"),
+     Signal(147, "launched", <<Prm("probe", ProbeO)>>, FALSE, "object"),
+     Signal(148, "fleet", <<Prm("probes", List(ProbeO))>>, FALSE, "object"),
+     Signal(149, "registry", <<Prm("byName", Map(S_, ProbeO))>>, FALSE, "object"),
+     Signal(150, "joined", <<Prm("other", SelfO)>>, FALSE, "object"),
+     Signal(151, "relayed", <<Prm("relay", RelayO)>>, FALSE, "object"),
+     Method(152, "anyResult", <<Prm("num", I_)>>, Sc("o"), "object"),
+     Signal(153, "anySignal", <<Prm("ref", Sc("o"))>>, FALSE, "object"),
+     \* object shapes in classes of their own (one class per shape and position)
+     Method(154, "dockAll", <<Prm("probes", List(ProbeO))>>, I_, "object-list-argument"),
+     Method(155, "fleetOf", <<Prm("num", I_)>>, List(ProbeO), "object-list-result"),
+     Method(156, "dockNamed", <<Prm("byName", Map(S_, ProbeO))>>, I_, "object-map-argument"),
+     Method(157, "named", <<Prm("num", I_)>>, Map(S_, ProbeO), "object-map-result"),
+     Method(158, "dockPair", <<Prm("pair", Tuple(<<ProbeO, I_>>))>>, I_, "object-tuple-argument"),
+     Method(159, "pairOf", <<Prm("num", I_)>>, Tuple(<<ProbeO, I_>>), "object-tuple-result"),
+     Method(160, "hold", <<Prm("holder", HolderT)>>, I_, "object-struct-field"),
+     Signal(161, "held", <<Prm("holder", HolderT)>>, FALSE, "object-struct-field-signal"),
+     Signal(162, "docked", <<Prm("num", I_), Prm("probe", ProbeO)>>, FALSE, "signal-two-params-object"),
+     Property(163, "current", <<Prm("probe", ProbeO)>>, FALSE, "object-property"),
+     Property(164, "convoy", <<Prm("probes", List(ProbeO))>>, FALSE, "object-list-property"),
+     Method(165, "anyParam", <<Prm("ref", Sc("o"))>>, I_, "generic-object-argument"),
+     \* tuples that are a whole result / payload / property value
+     Method(166, "coords", <<>>, Tuple(<<S_, I_>>), "tuple-result-without-params"),
+     Signal(167, "located", <<Prm("at", Tuple(<<S_, I_>>))>>, FALSE, "signal-tuple-param"),
+     Property(168, "origin", <<Prm("at", Tuple(<<S_, I_>>))>>, FALSE, "property-tuple-param") >>
 
 Pools == [a |-> PoolA, b |-> PoolB, c |-> PoolC]
 ThePool == Pools[Pool]
@@ -220,7 +289,9 @@ VARIABLES chosen, last
 ivars == <<chosen, last>>
 
 Actions == {ThePool[i] : i \in chosen}
-Special(i) == ThePool[i].cls # "plain"
+\* "object": actions that exchange objects of interfaces of the package and that the generators handle
+\* (like "plain" they combine freely); every other class is a special one
+Special(i) == ThePool[i].cls \notin {"plain", "object"}
 
 IInit == chosen = {} /\ last = 0
 Add(i) == /\ i > last
@@ -237,8 +308,8 @@ ISpec == IInit /\ [][INext]_ivars
 UniqueIds == \A a, b \in Actions : a.id = b.id => a = b
 \* every signature of the meta-object is in the grammar and denotes the declared type
 SigsInGrammar ==
-  \A a \in Actions : /\ RoundTrip(PayloadType(a))
-                     /\ RoundTrip(a.ret)
+  \A a \in Actions : /\ RoundTrip(Erase(PayloadType(a)))
+                     /\ RoundTrip(Erase(a.ret))
 TupleShaped == \A a \in Actions : ~a.bare => PayloadType(a).k = "tuple"
 BareIsSingle == \A a \in Actions : a.bare => Len(a.ps) = 1 /\ a.kind # "method"
 \* one definition per struct name within the interface (the collision class is about the opposite)
@@ -249,6 +320,7 @@ Consistent ==
 VoidOnlyReturned ==
   LET RECURSIVE HasVoid(_)
       HasVoid(T) == CASE T.k = "sc"   -> T.c = "v"
+                      [] T.k = "obj"  -> FALSE
                       [] T.k = "list" -> HasVoid(T.e)
                       [] T.k = "map"  -> HasVoid(T.key) \/ HasVoid(T.val)
                       [] OTHER        -> \E i \in DOMAIN T.ms : HasVoid(T.ms[i])
